@@ -145,10 +145,16 @@ impl Multi {
                     };
                     // the same two questions with a SAT backend that returns other models than a
                     // default-phase CDCL solver would (the answers may not depend on that choice)
-                    if distinct >= 2 || case.choice.0 % 4 == 0 {
+                    // the procedures that climb from one SAT answer to the next (preferred, semi-stable, stage,
+                    // ideal) get three more choices of models per real list
+                    let rounds: u64 = if distinct >= 2 && matches!(sem, Sem::PR | Sem::SST | Sem::STG | Sem::ID) { 4 } else { 1 };
+                    for round in 0..rounds {
+                        if !(distinct >= 2 || case.choice.0 % 4 == 0) {
+                            break;
+                        }
                         rec.evals(2);
                         let r = guard(|| {
-                            let be = satwrap::choosy(case.choice.0, case.choice.1 % 3, 64);
+                            let be = satwrap::choosy(case.choice.0.wrapping_add(round.wrapping_mul(0x9E37_79B9)), ((case.choice.1 as u64 + round) % 3) as u8, 64);
                             let shared = Shared::new(satwrap::DEFAULT_CAP);
                             let mut s = SolverObj::new(af, kind, enc, satwrap::factory_with(&shared, &be));
                             let with = if q == Q::DC { s.dc(&refs, true) } else { s.ds(&refs, true) };
@@ -251,7 +257,7 @@ impl Prop for Multi {
         prop_oneof![150 => self.small_strategy(tier).prop_map(MultiAny::Small), 1 => composite, 2 => medium].boxed()
     }
     fn n_cases(&self, tier: Tier) -> u32 {
-        tier.pick(60_000, 1_500_000)
+        tier.pick(45_000, 1_000_000)
     }
     fn run(&self, any: &MultiAny, rec: &mut Rec) -> CheckResult {
         match any {
